@@ -121,6 +121,8 @@ def op_cases(draw, tier="quick"):
         "kern": [[draw(st.integers(0, 3)) for _ in range(3)] for _ in range(n)],
         "kern_kind": [draw(st.sampled_from([0, 0, 1, 2, 3, 4])) for _ in range(n)],
         "lik": [draw(st.integers(0, len(LIKS) - 1)) for _ in range(n)],
+        # the number type the likelihood function returns (all are numbers a caller may plausibly return)
+        "lik_type": draw(st.sampled_from(["py", "py", "float32", "float64", "fraction", "npint"])),
         "real": [draw(st.integers(-5, 5)) for _ in range(n)],
         "w1": draw(st.sampled_from([0.25, 0.5, 1, 2, 0.75])), "w2": draw(st.sampled_from([0.25, 0.5, 1, 3])),
         "shift": draw(st.sampled_from([-100.0, -3.5, 0.5, 10.0, 500.0])),
@@ -166,8 +168,18 @@ def funcs(case, support):
         return DictDistribution({y: float(q) for y, q in r.items()})
     lik_ref = lambda e: LIKS[case["lik"][ix[e] % n]]
 
+    lt = case.get("lik_type", "py")
+
     def lik(e):
         v = lik_ref(e)
+        if lt == "float32":       # 0, 1/4, 1/2, 1, 2 are exact in single precision
+            return np.float32(float(v))
+        if lt == "float64":
+            return np.float64(float(v))
+        if lt == "fraction":
+            return F(v) if not isinstance(v, bool) else v
+        if lt == "npint" and not isinstance(v, (F, bool)):
+            return np.int64(v)
         return float(v) if isinstance(v, F) else v
     real = lambda e: case["real"][ix[e] % n]
     return proj, kern, kern_ref, lik, lik_ref, real
@@ -194,8 +206,10 @@ def prop_ops(case, ctx):
     rc = RP.condition(rp, lik_ref)
     if rc is not None:
         cd = ctx.call("C11.condition.raises", p.condition, lik)
-        compare(ctx, "C11.condition", cd, rc, tol, "condition")
-        ctx.check(abs(sum(fl(x) for x in dict(cd.items()).values()) - 1) <= 1e-9, "C11.condition.normalised")
+        # (single-precision likelihoods make numpy carry the products in single precision: that accuracy is the caller's)
+        ctol, ntol = (1e-6, 1e-6) if case.get("lik_type") == "float32" else (tol, 1e-9)
+        compare(ctx, "C11.condition", cd, rc, ctol, "condition")
+        ctx.check(abs(sum(fl(x) for x in dict(cd.items()).values()) - 1) <= ntol, "C11.condition.normalised")
     else:
         ctx.event("condition_zero_mass_skipped")
     # joint
